@@ -477,7 +477,7 @@ def colour_checks(ctx, progs, quick_n):
         design_mc(ctx, "MC_Colour", "MC_Colour_deep.cfg", workers=12, timeout=3000, coverage=False, xmx="8g")
         design_mc(ctx, "MC_Colour", "MC_Colour_locks.cfg", workers=12, timeout=3000, coverage=False, xmx="8g")
     colour.validate_events(ctx, ctx.results, progs)
-    colour.validate_instances(ctx, quick_n=quick_n if ctx.tier == "quick" else None)
+    colour.validate_instances(ctx, quick=ctx.tier == "quick")
 
 
 def run_cli(entry, args, cwd, timeout=240, hashseed="0", trace=None):
